@@ -387,7 +387,7 @@ CHECKS["C08"] = dict(
 
 CHECKS["C07"] = dict(
     pkg="c07", level="exploration",
-    props=[dict(name="TestPropOneClientPerNode", quick=240, thorough=16 * 120, shards_quick=12, shards_thorough=16, shrinktime="60s",
+    props=[dict(name="TestPropOneClientPerNode", quick=240, thorough=16 * 600, shards_quick=12, shards_thorough=16, shrinktime="60s",
                 timeout_quick=1500, timeout_thorough=10800)],
     rule="a real instance plus client.NewManager for a harness-defined node type Probe (child list probeKid) with parent type "
          "probeHost; the instrumented client logs constructor, Run entry, Stop and Run return (Run returns a drawn 0-100 ms "
